@@ -202,6 +202,10 @@ def session_case(rng, tier):
     w.emit('fm_snap')
     w.emit('fm_close')
     w.emit('fm_stat')
+    if rng.random() < 0.3:
+        # from here on the path given to the library is a symbolic link to the file
+        w.emit('fm_prep symlink')
+        w.emit('fm_stat')
     muts = mutators(w, e, rng, 'ro')
     mal = malformed(w, e, rng)
     # ---- read-only session(s)
